@@ -26,19 +26,21 @@ var (
 	ack1   = rpcsim.Option{Kind: "ack", IDs: []int64{1}}
 	adv3   = rpcsim.Option{Kind: "adv", D: 3}
 	cancel = rpcsim.Option{Kind: "cancel", ID: 1}
-	fclose = rpcsim.Option{Kind: "fclose"}
-	closeG = rpcsim.Option{Kind: "close"}
+	fclose = rpcsim.Option{Kind: "fclose", ID: 2}
+	closeG = rpcsim.Option{Kind: "close", ID: 1}
 )
 
 func directed() []rpcsim.Directed {
 	return []rpcsim.Directed{
-		{Sc: one("fclose-not-acked", 2, fclose), Script: []string{"start 1 1 7", "sret 1 ok", "fclose", "run 1"}},
-		{Sc: one("fclose-acked", 2, ack1, fclose), Script: []string{"start 1 1 7", "sret 1 ok", "ack 1", "run 1", "fclose", "run 1"}},
-		{Sc: one("fclose-ack-together", 2, ack1, fclose), Repeat: 20, Script: []string{"start 1 1 7", "sret 1 ok", "ack 1", "fclose", "run 1", "run 1"}},
-		{Sc: one("fclose-during-send", 2, fclose), Script: []string{"start 1 1 7", "fclose", "sret 1 ok", "run 1"}},
-		{Sc: one("fclose-then-start", 2, fclose), Script: []string{"fclose", "start 1 1 7"}},
-		{Sc: one("close-then-start", 2, closeG), Script: []string{"close", "start 1 1 7"}},
-		{Sc: one("graceful-close-waits", 2, closeG, res0), Script: []string{"start 1 1 7", "sret 1 ok", "close", "nres 0 1 100", "nrun 0", "nrun 0", "nwrite 0 ok", "run 1", "run 1"}},
+		{Sc: one("fclose-not-acked", 2, fclose), Script: []string{"start 1 1 7", "sret 1 ok", "fclose 2", "run 1"}},
+		{Sc: one("fclose-acked", 2, ack1, fclose), Script: []string{"start 1 1 7", "sret 1 ok", "ack 1", "run 1", "fclose 2", "run 1"}},
+		{Sc: one("fclose-ack-together", 2, ack1, fclose), Repeat: 20, Script: []string{"start 1 1 7", "sret 1 ok", "ack 1", "fclose 2", "run 1", "run 1"}},
+		{Sc: one("fclose-acked-in-batch-after-unknown", 2, rpcsim.Option{Kind: "ack", IDs: []int64{91, 1}}, fclose), Script: []string{
+			"start 1 1 7", "sret 1 ok", "ack 91 1", "run 1", "fclose 2", "run 1"}},
+		{Sc: one("fclose-during-send", 2, fclose), Script: []string{"start 1 1 7", "fclose 2", "sret 1 ok", "run 1"}},
+		{Sc: one("fclose-then-start", 2, fclose), Script: []string{"fclose 2", "start 1 1 7"}},
+		{Sc: one("close-then-start", 2, closeG), Script: []string{"close 1", "start 1 1 7"}},
+		{Sc: one("graceful-close-waits", 2, closeG, res0), Script: []string{"start 1 1 7", "sret 1 ok", "close 1", "nres 0 1 100", "nrun 0", "nrun 0", "nwrite 0 ok", "run 1", "run 1"}},
 		{Sc: one("cancel-sent-drop", 2, cancel), Script: []string{"start 1 1 7", "sret 1 ok", "cancel 1", "run 1", "run 1", "dret 1 ok"}},
 		{Sc: &rpcsim.Scenario{Name: "cancel-not-sent-no-drop", Cfg: rpcsim.Config{MaxRetries: 2, Interval: 3}, Can: true,
 			Calls: []rpcsim.Option{{Kind: "start", ID: 1, Seq: 1, Body: 7}}, Env: []rpcsim.Option{cancel}},
@@ -46,7 +48,7 @@ func directed() []rpcsim.Directed {
 		{Sc: one("cancel-and-result", 2, cancel, res0), Repeat: 20, Script: []string{
 			"start 1 1 7", "sret 1 ok", "nres 0 1 100", "nrun 0", "nrun 0", "nwrite 0 ok", "cancel 1", "run 1", "run 1"}},
 		{Sc: one("cancel-and-fclose", 2, cancel, ack1, fclose), Repeat: 20, Script: []string{
-			"start 1 1 7", "sret 1 ok", "ack 1", "run 1", "cancel 1", "fclose", "run 1"}},
+			"start 1 1 7", "sret 1 ok", "ack 1", "run 1", "cancel 1", "fclose 2", "run 1"}},
 	}
 }
 
@@ -68,7 +70,7 @@ func dfsScenarios() []*rpcsim.Scenario {
 }
 
 func run(c *hc.Ctx) error {
-	k := &rpcsim.Check{C: c, Prop: "C26", W: rpcsim.WeightsC26,
+	k := &rpcsim.Check{C: c, Prop: "C26", Src: rpcsim.ReadSrc(hc.NewFacts("C26", c.Repo)), W: rpcsim.WeightsC26,
 		Nontrivial: func(s *rpcsim.Sim) bool {
 			return s.Stats["cancel-pending"] > 0 || s.Stats["fclose-pending"] > 0 || s.Stats["close-pending"] > 0
 		}}
